@@ -878,6 +878,12 @@ def eval_msg(ctx: Ctx, c: dict):
         if d:
             fail(ctx, "C03/parse_render/value-differs", f"parsed message differs from the original: {d}", c)
         check_reader_options(ctx, c, w, origin, key, m2)
+        if c["tsig"] is not None and m2.tsig is not None:
+            t, rd = c["tsig"], m2.tsig[0]
+            got = (int(rd.original_id), int(rd.fudge), int(rd.error), bytes(rd.other).hex(), int(rd.time_signed))
+            want = (t["orig_id"], t["fudge"], t["error"], t["other"], FIXED_TIME)
+            if got != want or m2.tsig.name != dns.name.Name(L(t["name"])):
+                fail(ctx, "C03/tsig/fields", f"TSIG (original_id, fudge, error, other, time) asked for {want}, on the wire {got}", c)
         if zlib.adler32(w) % 2 == 0:
             check_call_forms(ctx, c, m, key, origin, ms, w, m2)
         if not d and m2 == m and zlib.adler32(w) % 3 == 0:
